@@ -153,7 +153,8 @@ def sqrt(x):
     c.defs.append((x >= 0).t if isinstance(x >= 0, SB) else z3.BoolVal(bool(x >= 0)))
     c.events.append(('sqrt', x))
     c.axioms.append(r >= 0)
-    _ax(out * out == x)
+    nonneg = x >= 0
+    _ax(sb_or([~nonneg if isinstance(nonneg, SB) else (not nonneg), out * out == x]))
     _reg()[k] = Entry('sqrt', x, out, k)
     return out
 
